@@ -115,8 +115,9 @@ class Engine:
     assumptions = [
         "the input x configuration factor of C01 is sampled by the workload generator only; the fault factor is "
         "what this check decides (DESIGN §4.1)",
-        "an exception raised inside a docutils/Sphinx writer (a frame under .../writers/) while it translates a "
-        "finished doctree is outside C01 (parse + transforms + post-transforms) and is counted, not reported",
+        "an exception raised inside a docutils/Sphinx writer (a frame under .../writers/) or in the builder's "
+        "per-document write / finishing step (write_doc, page context, indices), i.e. after the document was read and "
+        "its references resolved, is outside C01 (parse + transforms + post-transforms) and is counted, not reported",
         "docutils runs with halt_level=5 (its default halt_level=4 aborts by configuration on a SEVERE message such "
         "as a missing include), report_level=2, traceback=True",
         "calls issued by docutils or Sphinx (also on MyST's behalf: env.relfn2path -> Path.resolve, image "
@@ -398,7 +399,8 @@ class Engine:
                         count("i4_skipped_call_failed_in_recording")
                         continue
                     count("i4_checked")
-                    eligible.add((d["site"], d["op"], d["rel"], d["nth"]))
+                    eligible.add((d["site"], d["op"], d["rel"]))  # per file: the same file failing twice may
+                    #                                                   repeat a message line verbatim
                     if not new:
                         violate("I4", f"{fe}:{d['site']}/{d['op']}/{d['kind']}:not-reported", fp,
                                 front_end=fe, delivered=res["delivered"], messages_before=rec["msgs"][:12],
